@@ -1065,6 +1065,7 @@ def run(ctx, rep):
     r06a(ctx, rep)
     r06b(ctx, rep)
     r06z(ctx, rep)
+    r06f(ctx, rep)
     # R06n: the arithmetic arms of number.rs, arm by arm (same rule as C08's R08a)
     sub = type(rep)(rep.prop)
     numeric.r08a(ctx, sub)
@@ -1084,6 +1085,36 @@ def run(ctx, rep):
         if o.key == "R09c|Number::is_zero":
             o.rule, o.key = "R06i", "R06i|Number::is_zero"
             rep.obs.append(o)
-    rep.not_decided += ["termination (list?/equal?/length/result conversion on circular data loop forever; no loop-variant argument is in reach)",
+    rep.not_decided += ["termination in general (list?/equal?/length/result conversion on circular data loop forever; no loop-variant argument is in reach; only float-equality loops are checked, R06f)",
                         "native stack exhaustion (C19)", "allocation failure for sizes beyond 10^6",
                         "panics inside external crates on paths the may-panic table does not list"]
+
+
+def r06f(ctx, rep):
+    facts = ctx["facts"]
+    rep.rule("R06f", "float-controlled loops leave on non-finite values: a loop whose exit test is an equality of an f64 with a "
+             "constant (typically `x == 0.0`) never exits once x is NaN; such a loop must also test is_finite / is_nan / "
+             "is_infinite inside its body.")
+    n = 0
+    for p, f in sorted(facts.fns.items()):
+        if f.crate != "marwood":
+            continue
+        for src, hdr in f.back_edges():
+            body = f.reach_from(hdr) & f.reach_back(src) | {hdr, src}
+            for bb in sorted(body):
+                t = f.blocks[bb]["term"]
+                if t["k"] != "switch":
+                    continue
+                exits = [x for x in f.succ[bb] if x not in body]
+                if not exits:
+                    continue
+                o = f.origin(t["op"])
+                if o[0] == "rv" and o[1]["rv"]["k"] == "bin" and o[1]["rv"]["op"] in ("Eq", "Ne") and o[1]["rv"].get("aty") == "f64":
+                    n += 1
+                    guard = any((callee(t2) or "").endswith(("::is_finite", "::is_nan", "::is_infinite"))
+                                for b2, t2 in f.calls() if b2 in body)
+                    key = "R06f|%s" % f.short
+                    (rep.ok if guard else rep.fail)("R06f", key, "%s: the float-equality loop also leaves on non-finite values" % f.short if guard else
+                                                    "%s: a loop exits only when an f64 equals a constant; for NaN (e.g. the fraction of an "
+                                                    "infinity) it never terminates" % f.short, [t["loc"]])
+    rep.floor("R06f", "loops controlled by a float equality", n, 1)
